@@ -64,7 +64,9 @@ class Degenerate:
     def __init__(self, rng, max_depth=4, id_policy="none", p_empty=0.12, html=True, size_cap=70):
         self.rng = rng
         self.max_depth = max_depth
-        self.id_policy = id_policy          # none | some | all | duplicate
+        self.id_policy = id_policy          # none | some | all | duplicate   (a trailing '+' = some ids carry special characters)
+        self.special_ids = id_policy.endswith("+")
+        self.id_policy = id_policy.rstrip("+")
         self.p_empty = p_empty
         self.html = html
         self.size_cap = size_cap
@@ -250,6 +252,9 @@ class Degenerate:
             if self.id_policy == "all" or (self.id_policy in ("some", "duplicate") and r.random() < 0.4):
                 self.next_id += 1
                 n.attrs["id"] = "a%d" % self.next_id
+                if self.special_ids and r.random() < 0.3:
+                    # ids are arbitrary attribute values: characters that must be escaped in XML / SSML, blanks, non-ASCII
+                    n.attrs["id"] = r.choice(["x'%d", 'q"%d', "l<%d", "g>%d", "a&%d", "s p%d", "é%d", "a.b-%d", "#%d", "x'\"<&>%d"]) % self.next_id
         if self.id_policy == "duplicate":
             with_id = [n for n in nodes if "id" in n.attrs]
             if len(with_id) >= 2:
